@@ -332,6 +332,40 @@ theorem enc_disjoint_from_pred (batch : β) (c : Cfg) (sizes : Int → Rounded) 
   obtain ⟨_, _, _, _, _, hs, _, _⟩ := collate_ok h
   exact enc_disjoint_when_all_constraints_active c _ _ s (hs s hsm) m hm (by rw [h0]; simp) b hb n n' k hk
 
+/-- … stated on the returned tensors: row `e * B + b` of `ctx["encoder_masks"]` (encoder mask `e` of sample `b`) shares no
+    index with row `j * B + b` of `ctx["predictor_masks"]` (predictor mask `j` of the same sample) -/
+theorem enc_rows_disjoint_from_pred_rows (batch : β) (c : Cfg) (sizes : Int → Rounded) (counter : Int) (B : Nat)
+    (tape : List Nat) (o : Out β) (h : collate batch c sizes counter B tape = .ok o)
+    (hmargin : o.encSize.1 * o.encSize.2 - c.nPred * (o.predSize.1 * o.predSize.2) > c.minKeep)
+    (b e j : Nat) (hb : b < B) (he : e < c.nEnc) (hj : j < c.nPred) :
+    ∃ rowE rowP, o.encRows[e * B + b]? = some rowE ∧ o.predRows[j * B + b]? = some rowP ∧ ∀ k ∈ rowE, k ∉ rowP := by
+  have hdis := enc_disjoint_from_pred batch c sizes counter B tape o h hmargin
+  obtain ⟨_, _, _, _, hlen, hs, hpr, her⟩ := collate_ok h
+  have hbs : b < o.samples.length := by rw [hlen]; exact hb
+  have hsm : o.samples[b] ∈ o.samples := List.getElem_mem hbs
+  obtain ⟨hpl, _, hel, _, _⟩ := hs _ hsm
+  have hE := layout_getElem? (minLen (c.H * c.W) (o.samples.map (fun s => s.encs.map Prod.fst)).flatten) c.nEnc
+    (o.samples.map (fun s => s.encs.map Prod.fst))
+    (by intro ms hms; simp only [List.mem_map] at hms; obtain ⟨s, hs', rfl⟩ := hms; simp [(hs s hs').2.2.1])
+    e b he (by simpa using hbs)
+  have hP := layout_getElem? (minLen (c.H * c.W) (o.samples.map (fun s => s.preds.map Block.idx)).flatten) c.nPred
+    (o.samples.map (fun s => s.preds.map Block.idx))
+    (by intro ms hms; simp only [List.mem_map] at hms; obtain ⟨s, hs', rfl⟩ := hms; simp [(hs s hs').1])
+    j b hj (by simpa using hbs)
+  simp only [List.length_map, hlen] at hE hP
+  rw [← her] at hE
+  rw [← hpr] at hP
+  refine ⟨_, _, hE, hP, ?_⟩
+  have hej : e < (o.samples[b]).encs.length := by rw [hel]; exact he
+  have hjj : j < (o.samples[b]).preds.length := by rw [hpl]; exact hj
+  have e1 : ((o.samples.map (fun s : SampleMasks => s.encs.map Prod.fst))[b]'(by simpa using hbs)).getD e [] = ((o.samples[b]).encs[e]).1 := by
+    simp [List.getD_eq_getElem?_getD, List.getElem?_eq_getElem hej]
+  have e2 : ((o.samples.map (fun s : SampleMasks => s.preds.map Block.idx))[b]'(by simpa using hbs)).getD j [] = ((o.samples[b]).preds[j]).idx := by
+    simp [List.getD_eq_getElem?_getD, List.getElem?_eq_getElem hjj]
+  rw [e1, e2]
+  intro k hk
+  exact hdis _ hsm _ (List.getElem_mem hej) _ (List.getElem_mem hjj) _ _ k hk
+
 /-- **Block sizes depend on the step counter only** (not on the batch, its size or the numpy tape), and the counter
     advances by one per call -/
 theorem block_sizes_depend_on_step_only {β' : Type} (b1 : β) (b2 : β') (c : Cfg) (sizes : Int → Rounded) (counter : Int)
